@@ -401,6 +401,7 @@ def run(report, p):
 
     # ---- rules shared with other properties (same mechanism, same rule, reported under every property it can break)
     include_rules(report, p, 'c02', ['R2.1'], 'ignored names are dropped (and only those) inside the traversal')
+    include_rules(report, p, 'c13', ['R13.2'], 'patterns are matched against the path relative to the sealed root (not to the working directory or a sub-folder), in the traversal and in the missing-file filter alike')
     report.not_decided += ["pathspec matching semantics for concrete patterns", "that ignored entries are absent from concrete record sets / directory hashes at run time"]
 
 
